@@ -1,9 +1,11 @@
 (* C06 -- Results are deterministic across processes, hash seeds and worker schedules.
    Property theorems only; every proof is `exact <lemma>`; Print Assumptions under each. *)
 From Coq Require Import List ZArith Bool Permutation Sorted.
+From Coq Require String.
 Import ListNotations.
 Require Import Pyrefact.SchedModel Pyrefact.SchedProofs Pyrefact.SchedPermProofs Pyrefact.SchedSortProofs.
 Require Import Pyrefact.FilesModel Pyrefact.FilesProofs.
+Require Import Pyrefact.PickModel Pyrefact.PickProofs.
 Open Scope Z_scope.
 
 (* T06.1 yield order (set-iteration order) of a rule cannot matter when its rewrites do not conflict:
@@ -121,6 +123,43 @@ Theorem T06_3_batches_shrink :
     fst (pass_loop chg fuel p fs st) = b1 :: b2 :: rest -> forall f, In f b2 -> In f b1.
 Proof. exact batches_shrink. Qed.
 Print Assumptions T06_3_batches_shrink.
+
+(* T06.5 (round 5) picking ONE candidate out of a hash-ordered collection: Python's max(S, key=k) (first element in
+   iteration order with maximal key) is a function of the SET S -- the same for every permutation of the iteration
+   order -- if and only if the key separates the best elements (no tie among the maxima). *)
+Theorem T06_5_max_over_set_order_independent_iff :
+  forall (A : Type) (key : A -> Z) (l : list A),
+    (forall l', Permutation l l' -> argmax A key l' = argmax A key l) <-> key_separates_maxima A key l.
+Proof. exact argmax_order_independent_iff. Qed.
+Print Assumptions T06_5_max_over_set_order_independent_iff.
+
+(* T06.5 partial (guarded) form, and the sufficient condition the allow-list uses ("key-injective") *)
+Theorem T06_5_max_partial :
+  forall (A : Type) (key : A -> Z) (l l' : list A),
+    key_separates_maxima A key l -> Permutation l l' -> argmax A key l' = argmax A key l.
+Proof. exact argmax_perm_invariant. Qed.
+Print Assumptions T06_5_max_partial.
+
+Theorem T06_5_injective_key_suffices :
+  forall (A : Type) (key : A -> Z) (l : list A),
+    (forall x y, List.In x l -> List.In y l -> key x = key y -> x = y) -> key_separates_maxima A key l.
+Proof. exact injective_key_separates. Qed.
+Print Assumptions T06_5_injective_key_suffices.
+
+(* R06.5 a tie IS exhibited by two iteration orders: both tied elements are returned by some order *)
+Theorem R06_5_tie_is_order_dependent :
+  forall (A : Type) (key : A -> Z) (l : list A) (x y : A),
+    is_max A key l x -> is_max A key l y -> x <> y ->
+    exists l1 l2, Permutation l l1 /\ Permutation l l2 /\ argmax A key l1 = Some x /\ argmax A key l2 = Some y.
+Proof. exact argmax_tie_order_dependent. Qed.
+Print Assumptions R06_5_tie_is_order_dependent.
+
+(* R06.5 refuted at full strength for "the spelling written most often" (seed C06-d): boxWidth / BoxWidth, 2 : 2 *)
+Theorem R06_5_most_written_refuted :
+  exists (mentions names names' : list String.string),
+    Permutation names names' /\ most_written mentions names <> most_written mentions names'.
+Proof. exact most_written_perm_invariance_refuted. Qed.
+Print Assumptions R06_5_most_written_refuted.
 
 (* non-vacuity *)
 Open Scope Z_scope.
